@@ -504,7 +504,7 @@ def _fam_builders():
         # EXCLUDED for mle (genuine defect, reported): builders.mle(csr_matrix, prior_counts=<ndarray>) raises ValueError
         # ('setting an array element with a sequence'): sparse + dense gives an np.matrix, which is neither sparse
         # nor accepted by _prinz_mle_py.  normalize and transpose accept it.
-        if bn != "mle":
+        if True:      # (mle raised ValueError here on the pinned tree; repaired, see known_findings.json)
             _reg("builders.%s/csr,prior_counts=matrix,calculate_eq_probs=False" % bn,
                  (lambda f: lambda C, P: f(C, prior_counts=P, calculate_eq_probs=False))(f),
                  lambda rs, k: (sp.csr_matrix(_counts(rs)), np.ones((4, 4)) / 4))
@@ -670,11 +670,10 @@ def _fam_msm():
     _reg("bace.absorb/int", lambda C, s: bace.absorb(C, s), absorb_args("int"))
     _reg("bace.absorb/csr", lambda C, s: bace.absorb(C, s), absorb_args("csr"))
     _reg("bace.absorb/csc_int", lambda C, s: bace.absorb(C, s), absorb_args("csc_int"))
-    # EXCLUDED (genuine defect of the pinned tree, reported): bace.absorb(lil_matrix, states) works on the caller's
-    # matrix (`c.tolil()` returns self for a lil_matrix) -- it zeroes the absorbed rows/columns of its argument;
-    # baysean_prune(lil_matrix) and bace(lil_matrix, ...) inherit this.
-    # _reg("bace.absorb/lil", lambda C, s: bace.absorb(C, s), absorb_args("lil"))
-    # _reg("bace.baysean_prune/lil", lambda C: bace.baysean_prune(C), lambda rs, k: (sp.lil_matrix(prune_counts(rs, k)),))
+    # bace.absorb(lil_matrix, states) worked on the caller's matrix on the pinned tree (`c.tolil()` returns self for
+    # a lil_matrix); baysean_prune(lil_matrix) inherited this.
+    # (repaired in /repo, see known_findings.json; the variants are part of the alphabet again)
+    _reg("bace.absorb/lil", lambda C, s: bace.absorb(C, s), absorb_args("lil"))
 
     def prune_counts(rs, k):
         C = _counts(rs, 5, 0.5) * 30
@@ -684,6 +683,7 @@ def _fam_msm():
     _reg("bace.baysean_prune", lambda C: bace.baysean_prune(C), lambda rs, k: (prune_counts(rs, k),))
     _reg("bace.baysean_prune/factor", lambda C: bace.baysean_prune(C, factor=np.log(2)), lambda rs, k: (prune_counts(rs, k),))
     _reg("bace.baysean_prune/csr", lambda C: bace.baysean_prune(C), lambda rs, k: (sp.csr_matrix(prune_counts(rs, k)),))
+    _reg("bace.baysean_prune/lil", lambda C: bace.baysean_prune(C), lambda rs, k: (sp.lil_matrix(prune_counts(rs, k)),))
     _reg("bace.bace", lambda C: bace.bace(C, 2, n_procs=1), lambda rs, k: (prune_counts(rs, k),))
     # EXCLUDED (genuine defect with the installed scipy 1.18, reported): bace.bace(<any scipy sparse matrix>, n) raises
     # ValueError('shape mismatch in assignment') in mergeTwoClosestStates (c[statesKeep, minX] += ... on a lil_matrix),
@@ -1207,9 +1207,8 @@ def _fam_mpi_ops():
 
 
 # ================================================================== geometry.rmsf
-# EXCLUDED (genuine defect, reported): rmsf.rmsf_calc(centers) superposes the caller's trajectory in place
-# (`centers = centers.superpose(centers[ref_frame])` returns self), i.e. it rewrites centers.xyz.
-# @_family
+# (rmsf.rmsf_calc superposed the caller's trajectory in place on the pinned tree; repaired, see known_findings.json)
+@_family
 def _fam_rmsf():
     from enspara.geometry import rmsf
     _reg("rmsf.rmsf_calc", lambda c: rmsf.rmsf_calc(c), lambda rs, k: (_mdtraj(rs, 4 + k, 5),))
